@@ -8,7 +8,7 @@ spec->code: TLC emits one case per configuration (YAML `apis` subset x http-rule
             names per client and the predicted observables of every call.  For every configuration the REAL generator emits a
             library for a small carrier API; harness/drivers/mixins.py imports it in a fresh interpreter, lists the mixin
             methods on the sync and asyncio clients and calls each one over sync gRPC, asyncio gRPC and REST against the loopback
-            servers.  The projection of what the servers saw is compared with the prediction.
+            servers - on two client instances (A, B) per kind, each with its own server, in the order A, B, A.  The projection of what the servers saw is compared with the prediction.
 code->spec: the recorded select/call events are validated by spec/MixinsTrace.tla in one batch (every invariant of Mixins after
             every recorded step).  Calls that already disagree with the prediction are validated separately (one representative
             per violation key) so that a defect in one RPC does not hide the remaining steps of the same library.
@@ -26,10 +26,10 @@ SERVICE = 'Carrier'
 OWN_GRPC_PREFIX = f'/{PKG}.'          # any service of the carrier API itself
 OWN_REST_PREFIX = '/own/'
 IAM = ('SetIamPolicy', 'GetIamPolicy', 'TestIamPermissions')
-MUTANTS = ['no_yield', 'last_service_decides', 'yield_to_any_iam_name', 'sorted_bindings', 'first_rule_wins', 'ignore_apis', 'expose_without_rule', 'async_lacks_one', 'legacy_sync_only', 'wrong_path',
+MUTANTS = ['shared_wrapped_methods', 'no_yield', 'last_service_decides', 'yield_to_any_iam_name', 'sorted_bindings', 'first_rule_wins', 'ignore_apis', 'expose_without_rule', 'async_lacks_one', 'legacy_sync_only', 'wrong_path',
            'raw_response', 'header_name_for_iam', 'no_header', 'rest_wrong_verb', 'rest_drops_body']
-CALL_FIELDS = ('svc', 'm', 'kind', 'via', 'path', 'reqtype', 'resptype', 'hkey', 'hval', 'verb', 'body', 'extra')
-ASPECT = dict(via='own-rpc', path='path', reqtype='request-type', resptype='response-type', hkey='routing-header',
+CALL_FIELDS = ('inst', 'svc', 'm', 'kind', 'via', 'server', 'path', 'reqtype', 'resptype', 'hkey', 'hval', 'verb', 'body', 'extra')
+ASPECT = dict(server='own-transport', via='own-rpc', path='path', reqtype='request-type', resptype='response-type', hkey='routing-header',
               hval='routing-header', verb='verb', body='body', extra='body')
 
 
@@ -131,7 +131,7 @@ def _work(job):
             return dict(key=key, gen_error=f'{type(e).__name__}: {str(e)[:500]}')
         root = gen.materialise(res, os.path.join(work, 'out'))
         ok, out, err = gen.run_driver('harness.drivers.mixins', root, dict(
-            module=module_of(case['tmpl']), services=[dict(service=sv, service_snake=sv.lower()) for sv in case['services']], kinds=kinds, rpcs=case['table']), timeout=600)
+            module=module_of(case['tmpl']), services=[dict(service=sv, service_snake=sv.lower()) for sv in case['services']], kinds=kinds, rpcs=case['table'], order=['A', 'B', 'A']), timeout=600)
         if not ok:
             return dict(key=key, drv_error=err[-2500:])
         return dict(key=key, obs=out)
@@ -157,7 +157,7 @@ def project_header(headers):
 def project_call(case, svc, rec):
     """driver record -> the call record of Mixins.tla."""
     row = next(r for r in case['table'] if r['rpc'] == rec['rpc'])
-    ev = dict(ev='call', svc=svc, m=rec['rpc'], kind=rec['kind'], via='-', path='-', reqtype='-', resptype='-', hkey='-', hval='-',
+    ev = dict(ev='call', inst=rec['inst'], server='-', svc=svc, m=rec['rpc'], kind=rec['kind'], via='-', path='-', reqtype='-', resptype='-', hkey='-', hval='-',
               verb='-', body='-', extra='-')
     sent = rec.get('sent') or []
     if rec.get('raised') or len(sent) != 1:
@@ -165,6 +165,7 @@ def project_call(case, svc, rec):
         ev['path'] = ('raised:' + rec['raised'].split(':')[0]) if rec.get('raised') else f'requests-seen:{len(sent)}'
         return ev
     s = sent[0]
+    ev['server'] = s['server']
     if rec['kind'] == 'rest':
         if s['path'].startswith(OWN_REST_PREFIX):
             ev['via'] = 'own'
@@ -195,6 +196,10 @@ def vkey(case, svc, kind, rpc, aspect):
     return f"{case['tmpl']}:{origin(case, rpc)}:{where}:{rpc}:{aspect}"
 
 
+def ident(e):
+    return (e['svc'], e['m'], e['kind'], e['seq'])
+
+
 def compare(case, present, events):
     """returns (presence diffs [(key, text)], per-call diffs {(svc, m, kind): [(key, text)]}, unexpected [(key, text)])."""
     pres = []
@@ -209,34 +214,38 @@ def compare(case, present, events):
                 if rpc not in want:
                     pres.append((vkey(case, svc, client, rpc, 'exposed-unexpectedly'),
                                  f'{svc} {client} client exposes {rpc}; predicted {want}, found {got}'))
-    predicted = {(c['svc'], c['m'], c['kind']): c for c in case['expect']['calls']}
+    predicted = {(c['svc'], c['m'], c['kind'], c['inst']): c for c in case['expect']['calls']}
     skip = {(c['svc'], c['m'], c['kind']) for c in case['expect']['outofscope']}
-    observed = {(e['svc'], e['m'], e['kind']): e for e in events}
     calls, extra = {}, []
-    for smk, p in predicted.items():
-        sv, m, kd = smk
-        o = observed.get(smk)
-        if o is None:
-            calls[smk] = [(vkey(case, sv, kd, m, 'not-callable'), f'no call of {m} on {sv} over {kd} was possible')]
+    seen_ids = set()
+    for o in events:          # every observed call (each method is called on instance A, on B and on A again)
+        sv, m, kd = o['svc'], o['m'], o['kind']
+        p = predicted.get((sv, m, kd, o['inst']))
+        seen_ids.add((sv, m, kd, o['inst']))
+        if p is None:
+            if (sv, m, kd) not in skip:
+                extra.append((vkey(case, sv, kd, m, 'unexpected-call'), f'{sv}.{m} over {kd} is callable ({o}) but not predicted'))
             continue
         d = []
         if o['via'] == 'error':
-            d.append((vkey(case, sv, kd, m, 'raised'), f"{sv}.{m} over {kd}: {o['path']}"))
+            d.append((vkey(case, sv, kd, m, 'raised'), f"{sv}.{m} over {kd} (instance {o['inst']}, call {o['seq']}): {o['path']}"))
         elif o['via'] != p['via']:      # the API's own RPC was reached instead of the mixin, or the other way round
             d.append((vkey(case, sv, kd, m, 'own-rpc'),
                       f"{sv}.{m} over {kd}: reached {o['via']} ({o['path']}), predicted {p['via']} ({p['path']})"))
         else:
             seen = set()
-            for f in CALL_FIELDS[4:]:
+            for f in CALL_FIELDS[5:]:
                 if o[f] != p[f] and ASPECT[f] not in seen:
                     seen.add(ASPECT[f])
-                    d.append((vkey(case, sv, kd, m, ASPECT[f]), f"{sv}.{m} over {kd}: {f} = {o[f]!r}, predicted {p[f]!r}"))
+                    d.append((vkey(case, sv, kd, m, ASPECT[f]),
+                              f"{sv}.{m} over {kd} (instance {o['inst']}, call {o['seq']}): {f} = {o[f]!r}, predicted {p[f]!r}"))
         if d:
-            calls[smk] = d
-    for smk, o in observed.items():
-        if smk not in predicted and smk not in skip:
-            extra.append((vkey(case, smk[0], smk[2], smk[1], 'unexpected-call'),
-                          f'{smk[0]}.{smk[1]} over {smk[2]} is callable ({o}) but not predicted'))
+            calls[ident(o)] = d
+    for smki in predicted:
+        if smki not in seen_ids:
+            sv, m, kd, i = smki
+            calls[(sv, m, kd, 'missing-' + i)] = [(vkey(case, sv, kd, m, 'not-callable'),
+                                                  f'no call of {m} on {sv} over {kd} (instance {i}) was possible')]
     return pres, calls, extra
 
 
@@ -251,10 +260,14 @@ def evaluate(cases_of_cfg, obs, k):
     present = {sv: {c: project_present(case, per[sv]['present'].get(c)) for c in clients} for sv in case['services']}
     skip = {(c['svc'], c['m'], c['kind']) for c in case['expect']['outofscope']}
     events = [project_call(case, sv, rec) for sv in case['services'] for rec in per[sv]['calls']]
+    count = {}
+    for e in events:          # seq: the n-th call of this method on this client kind (1 = A, 2 = B, 3 = A again)
+        key = (e['svc'], e['m'], e['kind'])
+        count[key] = e['seq'] = count.get(key, 0) + 1
     events = [e for e in events if (e['svc'], e['m'], e['kind']) not in skip]
     order = {(sv, r['rpc'], kd): (h, i, j) for h, sv in enumerate((SERVICE, 'Other')) for i, r in enumerate(case['table'])
              for j, kd in enumerate(('grpc', 'grpc_asyncio', 'rest'))}
-    events.sort(key=lambda e: order[(e['svc'], e['m'], e['kind'])])
+    events.sort(key=lambda e: order[(e['svc'], e['m'], e['kind'])] + (e['seq'],))
     return case, present, events, compare(case, present, events)
 
 
@@ -392,9 +405,8 @@ def main(chk, args):
         if pres:
             suspects.setdefault(pres[0][0], (k, dict(cfg=cfg, events=[select] + events)))
             continue
-        ident = lambda e: (e['svc'], e['m'], e['kind'])
-        predicted_ids = {(c['svc'], c['m'], c['kind']) for c in case['expect']['calls']}
-        bad = set(calls) | {ident(e) for e in events if ident(e) not in predicted_ids}
+        predicted_ids = {(c['svc'], c['m'], c['kind'], c['inst']) for c in case['expect']['calls']}
+        bad = set(calls) | {ident(e) for e in events if (e['svc'], e['m'], e['kind'], e['inst']) not in predicted_ids}
         good.append((k, dict(cfg=cfg, events=[select] + [e for e in events if ident(e) not in bad])))
         for e in events:
             if ident(e) in bad:
@@ -450,7 +462,8 @@ def main(chk, args):
                 'asyncio gRPC and REST; evaluations = configurations + calls observed at the loopback servers; non-trivial = at '
                 'least one predicted call or own/legacy set; distinct by configuration')
     chk.assumptions += [
-        'loopback grpc / http servers; requests decoded with the installed google.longrunning / google.iam.v1 / google.cloud.location '
+        'two client instances (A, B) per client kind / transport live in one process, each on its own loopback grpc / http server; every '
+        'method is called on A, on B and on A again; requests decoded with the installed google.longrunning / google.iam.v1 / google.cloud.location '
         'pb2 descriptors (the input descriptors of the mixin APIs)',
         'own IAM RPCs = service Carrier declares any subset of SetIamPolicy/GetIamPolicy/TestIamPermissions (proper subsets: one service, both '
         'transports); the IAM mixin is read to yield as a whole iff an own RPC carries the name of a configured IAM mixin RPC (DESIGN 4 C17; '
